@@ -18,6 +18,7 @@ Request:
   {"batch": bool, "oneway": bool, "method": name, "args": [name, ...]}
   name   = str | {"ns": <tag>}   (non-string value, see NONSTR)
 """
+import json
 import threading
 import warnings
 
@@ -28,6 +29,21 @@ NONSTR = {
     "false": False, "zero": 0,                                                     # falsy extras for argument lists
     "list": ["m"], "dict": {"m": 1}, "set": {"m"}, "bytes": b"m",                  # arrive unhashable under serpent (bytes -> dict)
 }
+
+
+def _truthy(f):
+    def __bool__(self):
+        f(self)
+        return True
+    for a in ("_pyroExposed", "_pyroOneway"):
+        if hasattr(f, a):
+            setattr(__bool__, a, getattr(f, a))
+    __bool__.__name__ = f.__name__
+    return __bool__
+
+
+class MetadataFailed(Exception):
+    """the daemon did not answer a get_metadata request for a registered object with a member list"""
 
 
 class FakeSock:
@@ -69,6 +85,7 @@ class Real:
         from Pyro5 import server, protocol, serializers, errors, config
         self.server, self.protocol, self.errors = server, protocol, errors
         self.ser = serializers.serializers["serpent"]
+        self.sers = dict(serializers.serializers)
         self.daemon = server.Daemon(host="127.0.0.1", port=0) if with_daemon else None   # (the extractor only materialises classes)
         self.log = []
         self.seq = 0
@@ -157,6 +174,8 @@ class Real:
             ns = {}
             for key, m in c["members"]:
                 ns[key] = self._member(m)
+            if callable(ns.get("__bool__")) and not isinstance(ns["__bool__"], (staticmethod, classmethod)):
+                ns["__bool__"] = _truthy(ns["__bool__"])        # truth testing must return a bool; the effect is still logged
             cls = type(names[i], (cls,) if cls else (), ns)
             if c["expose"]:
                 cls = self.server.expose(cls)
@@ -169,7 +188,7 @@ class Real:
             obj.__dict__[key] = self._val(v)
         return cls, obj, classes
 
-    def build(self, shape, prior=None):
+    def build(self, shape, prior=None, reg="strong"):
         """materialise + register the shape; returns None, or the kind of exception the decorators raised.
         Class names (module, __qualname__) are unique per call.  `prior` = {"shape": .., "keep": bool}: a DIFFERENT object whose
         classes have the SAME module and qualified names, registered earlier in the same daemon, its metadata fetched (so whatever
@@ -200,14 +219,34 @@ class Real:
             return "priv" if str(x).startswith("exposing private names") else "attr"
         del self.log[:]
         self.cls, self.obj, self.classes = cls, obj, classes
-        self.daemon.register(obj, "c02target")
+        # how the object is registered: the instance (strongly / weakly: the daemon then holds a weakref, we keep the object alive),
+        # or the class (the daemon creates an instance per connection; instance attributes of the description do not apply)
+        if reg == "weak":
+            self.daemon.register(obj, "c02target", weak=True)
+        elif reg == "class":
+            self.daemon.register(cls, "c02target")
+        else:
+            self.daemon.register(obj, "c02target")
+        self.reg = reg
         return None
 
     def step(self, ev):
         """a run-time change of the registered object / its classes (no metadata cache reset): 'step' | 'steperr:<kind>'"""
         try:
             t = ev["t"]
-            if t == "is":
+            if t == "rm":
+                try:
+                    self.daemon.resetMetadataCache("c02target")
+                except Exception as x:       # (never on the unchanged tree; reported as a disagreement with the model, not a harness crash)
+                    return "reseterr:" + type(x).__name__
+                return "reset"
+            elif t == "gm":
+                try:
+                    md = self.metadata()
+                except MetadataFailed as x:
+                    return "Mfailed %s" % x
+                return "M %s" % json.dumps(md, sort_keys=True)
+            elif t == "is":
                 self.obj.__dict__[ev["k"]] = self._val(ev["v"])
             elif t == "id":
                 self.obj.__dict__.pop(ev["k"], None)
@@ -246,14 +285,28 @@ class Real:
 
     # ---------------------------------------------------------------- raw requests
     def _pyname(self, n):
-        return n if isinstance(n, str) else NONSTR[n["ns"]]
+        if isinstance(n, str):
+            return n
+        if "b" in n:
+            return n["b"].encode("utf-8")        # the name as a bytes object (needs a serializer that transports bytes)
+        return NONSTR[n["ns"]]
 
-    def raw(self, object_id, flags, method, vargs, kwargs=None):
+    def _payload(self, ser, object_id, method, vargs, kwargs):
+        """the serialised call.  marshal / msgpack payloads are written with the library itself (what any peer can send)."""
+        if ser == "marshal":
+            import marshal
+            return marshal.dumps((object_id, method, tuple(vargs), kwargs))
+        if ser == "msgpack":
+            import msgpack
+            return msgpack.packb((object_id, method, list(vargs), kwargs), use_bin_type=True)
+        return self.sers[ser].dumpsCall(object_id, method, vargs, kwargs)
+
+    def raw(self, object_id, flags, method, vargs, kwargs=None, ser="serpent"):
         """send one MSG_INVOKE, return (kind, value): ('result', v) | ('error', exc) | ('none', None) | ('raised', exc)"""
         P = self.protocol
         self.seq = (self.seq + 1) & 0xFFFF
-        data = self.ser.dumpsCall(object_id, method, vargs, kwargs or {})
-        msg = P.SendingMessage(P.MSG_INVOKE, flags, self.seq, self.ser.serializer_id, data)
+        data = self._payload(ser, object_id, method, vargs, kwargs or {})
+        msg = P.SendingMessage(P.MSG_INVOKE, flags, self.seq, self.sers[ser].serializer_id, data)
         conn = FakeConn(msg.data, self.errors)
         raised = None
         try:
@@ -270,7 +323,9 @@ class Real:
         if reply.seq != self.seq or rconn.pos != len(rconn.inbuf):
             return ("garbled", None)
         if reply.flags & P.FLAGS_EXCEPTION:
-            return ("error", self.ser.loads(reply.data))
+            return ("error", self.sers[ser].loads(reply.data))
+        if ser != "serpent":
+            return ("result", None)
         import serpent
         value = serpent.loads(reply.data)      # plain literal: results may hold instances of classes unknown to the client side
         if reply.flags & P.FLAGS_BATCH:
@@ -289,7 +344,7 @@ class Real:
         else:
             method = self._pyname(req["method"])
             vargs = [self._pyname(n) for n in req["args"]]
-        kind, value = self.raw("c02target", flags, method, vargs)
+        kind, value = self.raw("c02target", flags, method, vargs, ser=req.get("ser", "serpent"))
         eff = list(self.log)
         del self.log[:]
         return self.reply_token(kind, value), eff
@@ -319,5 +374,5 @@ class Real:
             warnings.simplefilter("ignore")
             kind, value = self.raw(core.DAEMON_NAME, 0, "get_metadata", [oid])
         if kind != "result":
-            raise RuntimeError("get_metadata failed: %r %r" % (kind, value))
+            raise MetadataFailed("get_metadata(%s) answered %s %r" % (oid, kind, value))
         return {k: sorted(value[k]) for k in ("methods", "oneway", "attrs")}
